@@ -9,6 +9,7 @@ import (
 	"sort"
 	"strings"
 	"sync"
+	"syscall"
 	"testing"
 	"time"
 
@@ -268,6 +269,53 @@ func c09Symlink(h *proc.Home) {
 			os.Symlink(real, p)
 		}
 	}
+}
+
+// c09FarDir returns a scratch directory on ANOTHER file system than the harness's work area
+// (/dev/shm where it is a writable tmpfs on a different device), or "" when there is none.
+func c09FarDir() string {
+	const shm = "/dev/shm"
+	a, err1 := os.Stat(shm)
+	b, err2 := os.Stat(gen.WorkDir())
+	if err1 != nil || err2 != nil || !a.IsDir() {
+		return ""
+	}
+	sa, ok1 := a.Sys().(*syscall.Stat_t)
+	sb, ok2 := b.Sys().(*syscall.Stat_t)
+	if !ok1 || !ok2 || sa.Dev == sb.Dev {
+		return ""
+	}
+	d, err := os.MkdirTemp(shm, "verif-c09-")
+	if err != nil {
+		return ""
+	}
+	return d
+}
+
+// c09SymlinkFar: the notebook and the history are symbolic links whose targets lie on another file
+// system (a dotfiles checkout on another volume). Returns a cleanup function; false when there is
+// no second file system here.
+func c09SymlinkFar(h *proc.Home) (func(), bool) {
+	far := c09FarDir()
+	if far == "" {
+		return func() {}, false
+	}
+	for i, p := range []string{h.Notebook(), h.History()} {
+		fi, err := os.Lstat(p)
+		if err != nil {
+			continue
+		}
+		data, err := os.ReadFile(p)
+		if err != nil {
+			continue
+		}
+		real := filepath.Join(far, fmt.Sprintf("f%d", i))
+		if os.WriteFile(real, data, fi.Mode().Perm()|0o200) == nil && os.Remove(p) == nil {
+			os.Chmod(real, fi.Mode().Perm())
+			os.Symlink(real, p)
+		}
+	}
+	return func() { os.RemoveAll(far) }, true
 }
 
 // c09DrawModes gives the notebook and the history of h permission bits other than the 0644
